@@ -19,7 +19,7 @@ import (
 // C10: filtered walk == naive reference; pruning unobservable; map function.
 
 func filterTreeOpt() tree.GenOpt {
-	return tree.GenOpt{MaxEntries: 18, MaxDepth: 3, MaxFanout: 5, Names: refs.FilterNames, Types: "fdl", Owners: []uint32{0}, MaxSize: 64}
+	return tree.GenOpt{MaxEntries: 18, MaxDepth: 3, MaxFanout: 5, Names: refs.FilterNames, Types: "fdl", Owners: []uint32{0}, MaxSize: 64, Deep: true}
 }
 
 type c10event struct {
